@@ -130,6 +130,7 @@ struct Case {
     Units                raw; // explicit units (hand-written regression cases), used when non-empty or raw_set
     bool                 raw_set{false};
     int                  gen2{0}; // 1: the value gets add_extras() and one template in twelve is an "aimed comparison" (absent in older files: 0)
+                                  // 2: as 1, and about one template in eight is an "expression soup"
 };
 
 // expressions that compare a literal / a short or storage-less string with a value that is longer, as the last thing in the template
@@ -150,6 +151,51 @@ Units aimed_template(jm::Entropy &e, std::string *ops) {
     Units u;
     for (const char *p = t[k]; *p; ++p) {
         u.push_back((unsigned char)*p);
+    }
+    return u;
+}
+
+// An expression of random tokens - numbers at the limits, variables, text, and text that starts like a number (what a numeral scan
+// gives up on half way) - between random operators, in a math tag, an inline if or an <if>: every operator meets every kind of operand.
+Units expression_soup(jm::Entropy &e, std::string *ops) {
+    static const char *operand[] = {"1", "0", "2", "7", "10", "-1", "3.5", "0.5", "1e3", "9223372036854775807", "9223372036854775808", "18446744073709551615",
+                                    "-9223372036854775808", "-9223372036854775807", "4294967296", "0.0", "-0", "1e308", "1e-320", "64", "63", "-64",
+                                    "{var:n}", "{var:T}", "{var:q0}", "{var:s}", "{var:ns}", "{var:sh}", "{var:lg}", "{var:a}", "{var:l}", "{var:nope}",
+                                    "2x", "3px", "1 0", "1.5.2", "0x1g", "-7q", "1e", "1e+", "5.", ".5", "abc", "T", "0x", "00", "1-", "9223372036854775808z", "-x", "{var:", "{var:a}b"};
+    static const char *oper[]    = {"+", "-", "*", "/", "%", "^", "==", "!=", "<", ">", "<=", ">=", "&&", "||", "&", "|", "=", "!", "<<", ">>"};
+    const unsigned     terms     = 2 + e.below(4);
+    std::string        x;
+    int                open = 0;
+    for (unsigned i = 0; i < terms; ++i) {
+        if (i != 0) {
+            x += e.chance(30) ? " " : "";
+            x += oper[e.below(e.chance(90) ? 16 : 20)];
+            x += e.chance(30) ? " " : "";
+        }
+        if (e.chance(12)) {
+            x += "(";
+            ++open;
+        }
+        x += operand[e.below(sizeof(operand) / sizeof(operand[0]))];
+        if (open > 0 && e.chance(40)) {
+            x += ")";
+            --open;
+        }
+    }
+    for (; open > 0 && e.chance(85); --open) {
+        x += ")";
+    }
+    std::string t;
+    switch (e.below(4)) {
+        case 0: t = "{math:" + x + "}"; break;
+        case 1: t = "{if case=\"" + x + "\" true=\"T\" false=\"F\"}"; break;
+        case 2: t = "<if case=\"" + x + "\">y<else />n</if>"; break;
+        default: t = "<loop value=\"v\" set=\"l\">{math:{var:v} " + std::string(oper[e.below(16)]) + " " + x + "}</loop>"; break;
+    }
+    if (ops) *ops += "expression-soup;";
+    Units u;
+    for (unsigned char ch : t) {
+        u.push_back(ch);
     }
     return u;
 }
@@ -239,7 +285,13 @@ Units make_template(const Case &c, std::string *ops = nullptr) {
     }
     jm::Entropy e(c.bytes);
     if (c.gen2 != 0 && !c.bytes.empty() && (c.bytes.back() % 12) == 0) { // decided by the last byte: the decoding below is untouched
+        if (c.gen2 >= 2 && c.bytes.size() > 1 && (c.bytes[c.bytes.size() - 2] & 1) != 0) {
+            return expression_soup(e, ops);
+        }
         return aimed_template(e, ops);
+    }
+    if (c.gen2 >= 2 && !c.bytes.empty() && (c.bytes.back() % 12) == 1) {
+        return expression_soup(e, ops);
     }
     if (e.chance(7)) {
         return boundary_template(e, ops);
@@ -317,7 +369,7 @@ struct H {
     static rc::Gen<Case> gen() {
         using namespace rc;
         return gen::map(gen::tuple(gen::resize(300, gen::container<std::vector<uint8_t>>(gen::arbitrary<uint8_t>())), pbt::pick<int>({1, 1, 1, 2, 4, 3}),
-                                   pbt::range<int>(0, tv::kPalette - 1), gen::arbitrary<bool>(), pbt::pick<int>({0, 1, 1})),
+                                   pbt::range<int>(0, tv::kPalette - 1), gen::arbitrary<bool>(), pbt::pick<int>({0, 1, 2, 2})),
                         [](std::tuple<std::vector<uint8_t>, int, int, bool, int> t) {
                             Case c;
                             c.bytes    = std::get<0>(t);
